@@ -461,7 +461,7 @@ def rule_add(ctx, R, NR, rules=None):
             t = b.blocks[sbi]["term"]
             if t["k"] == "switch":
                 succs = b.succ(sbi)
-                reach = [bi in b.reachable_from(s) for s in succs]
+                reach = [bi in b.reach(s, avoid_blocks=[sbi]) for s in succs]
                 if any(reach) and not all(reach) and b.dominates(sbi, bi):
                     cands.append(sbi)
         # the guard of this error site = the nearest such branch (dominated by all the others)
@@ -502,6 +502,29 @@ def rule_add(ctx, R, NR, rules=None):
                       b.loc(bi, si),
                       "an Ok exit of add (%s) is reachable without passing a duplicate guard %s (mode: %s)"
                       % (where, ["bb%d" % g for g in dup_guards], ",".join(bad_modes)))
+        # a set-membership guard (`!seen.insert(pattern)`) can only catch repeats of patterns that were recorded:
+        # unless the unrecorded paths have their own complete mechanism (a walk of the existing trie on the shadow
+        # branch), every Ok exit of the mode in which the set is consulted must have passed the insert
+        set_guards = []
+        for vw, bi2, c, tj in fv.calls(lambda c: core.callee_base(c.key) in ("alloc::collections::BTreeSet::insert", "alloc::collections::BTreeSet::contains",
+                                                                             "alloc::collections::BTreeMap::insert")):
+            if vw is root and any(x[0] == "param" and x[1] == 2 for a in tj["args"][1:] for x in walk(vw.op(a))):
+                if any(bi2 in b.reach(0) and g in b.reach(bi2) and b.dominates(bi2, g) for g in dup_guards):
+                    set_guards.append(bi2)
+        if set_guards:
+            for nm, cut in assumptions:
+                # is the set consulted in this mode at all?
+                active = [g for g in set_guards if g in b.reach(0, avoid_edges=cut)]
+                if not active:
+                    continue
+                for bi, si in ok_exits:
+                    if bi not in b.reach(0, avoid_edges=cut):
+                        continue
+                    skipped = bi in b.reach(0, avoid_blocks=active, avoid_edges=cut)
+                    lf = _is_lf_shadow_exit(b, root, bi)
+                    ctx.check(not skipped, "VALID-DUP", b, "seen-set-records-every-accepted-pattern@" + ("leftmost-first-shadow-branch" if lf else "registration"),
+                              b.loc(bi, si), "in mode `%s` an Ok exit is reachable without the pattern having been recorded in the set that the "
+                              "duplicate guard consults (a later repeat of that pattern on the other path cannot be detected)" % nm)
     # --- zero-length guard dominates all trie mutations
     muts = []
     for vw, bi, c, tj in fv.calls():
